@@ -209,13 +209,32 @@ func zeroValueSource(v ssa.Value, d int) string {
 			}
 		}
 	case *ssa.Phi:
-		for _, e := range x.Edges {
+		for i, e := range x.Edges {
+			// an incoming edge taken only after e.IsValid() held does not carry a zero Value
+			p := x.Block().Preds[i]
+			if validGuarded(p, e) || edgeIsValidTrue(p, x.Block(), e) {
+				continue
+			}
 			if s := zeroValueSource(e, d+1); s != "" {
 				return s
 			}
 		}
 	}
 	return ""
+}
+
+// edgeIsValidTrue: block p ends in `if v.IsValid()` (possibly negated by successor order) and the edge
+// p->succ is the one taken when IsValid is true.
+func edgeIsValidTrue(p, succ *ssa.BasicBlock, v ssa.Value) bool {
+	iff, ok := p.Instrs[len(p.Instrs)-1].(*ssa.If)
+	if !ok {
+		return false
+	}
+	c, ok := iff.Cond.(*ssa.Call)
+	if !ok || calleeFullName(c) != "(reflect.Value).IsValid" || !valueAlias(c.Call.Args[0], v) {
+		return false
+	}
+	return p.Succs[0] == succ
 }
 
 // srcNonNilGuarded: the interface the Value was built from is known non-nil at b.
